@@ -82,7 +82,11 @@ func (se *Session) violate(oracle, sig, format string, args ...any) {
 // AddFilters instantiates the filters a round adds to the session.
 func (se *Session) AddFilters(fs []sim.ParFilter) {
 	for _, f := range fs {
-		se.Filters = append(se.Filters, se.S.NewParFilter(f.Spec, f.Cached))
+		pf := se.S.NewParFilter(f.Spec, f.Cached)
+		if f.Batch {
+			se.S.UseForBatch(pf)
+		}
+		se.Filters = append(se.Filters, pf)
 		se.PFs = append(se.PFs, f)
 		se.used = append(se.used, false)
 	}
